@@ -1290,7 +1290,8 @@ def window_riemann(N):
     .. seealso:: :func:`create_window`, :class:`Window`
     """
     n = linspace(-N / 2.0, (N) / 2.0, N)
-    w = sin(n / float(N) * 2.0 * pi) / (n / float(N) * 2.0 * pi)
+    # sinc(x) = sin(pi x)/(pi x), equal to 1 at x = 0 (centre sample of an odd N)
+    w = np.sinc(n / float(N) * 2.0)
     return w
 
 
